@@ -14,7 +14,10 @@
      real analysis returns for the annotation genmodels.render_field writes; the
      correspondence compares the outcome (types, factory, tokens_factory, required) field by
      field with the real XmlVar;
-   * name generators are the defaults (identity); Meta.target_namespace, global_type,
+   * the name generators in force (Meta.element_name_generator / attribute_name_generator or the
+     context's) are not modelled as functions: the description carries what they return for the
+     Python field / class names (fd_gen_name, cd_gen_name; computed by the harness with the real
+     generator functions), the model decides WHERE they apply; Meta.target_namespace, global_type,
      inner classes and metadata "type": absent / Ignore are not in the description language;
    * dataclasses.fields order (inherited first, a redeclared field keeps its slot) is
      Spec.MetaSpec.all_fields — Python semantics, shared with the specification;
@@ -147,7 +150,11 @@ Definition build_var (index : N) (parent_ns : option str) (f : fdesc) : xvar :=
       | KAttribute, _ => fd_required f
       | _, _ => if fd_tokens f || has_factory then false else negb (tr_optional r)
       end in
-  let local := match fd_xml_name f with Some ((_ :: _) as n) => n | _ => fd_name f end in
+  (* local_name = metadata name or build_local_name(xml_type, name): the generator only sees the field name *)
+  let local := match fd_xml_name f with
+               | Some ((_ :: _) as n) => n
+               | _ => match fd_gen_name f with Some ((_ :: _) as g) => g | _ => fd_name f end
+               end in
   let types := tr_types r in
   let any_type := match k with KElement | KElements => existsb (ptype_eqb TObject) types | _ => false end in
   let clazz := first_class types in
@@ -191,7 +198,10 @@ Definition class_namespace (cd : cdesc) (parent_ns : option str) : option str :=
   match cd_meta_ns cd with Some n => Some n | None => parent_ns end.
 
 Definition meta_local_name (cd : cdesc) : str :=
-  match cd_meta_name cd with Some ((_ :: _) as n) => n | _ => cd_name cd end.
+  match cd_meta_name cd with
+  | Some ((_ :: _) as n) => n
+  | _ => match cd_gen_name cd with Some ((_ :: _) as g) => g | _ => cd_name cd end       (* element_name_generator(clazz.__name__) *)
+  end.
 
 (* XmlMetaBuilder.target_namespace(module, meta) *)
 Definition target_namespace (D : mdesc) (cd : cdesc) : option str :=
